@@ -41,6 +41,8 @@ type carrierOpts struct {
 	WrapConn func(net.Conn) net.Conn
 	// WrapRT lets a case interpose on the RoundTripper (HTTP carriers).
 	WrapRT func(http.RoundTripper) http.RoundTripper
+	// WrapHandler lets a case decorate the HTTP handler (middleware in front of httpgrpc).
+	WrapHandler func(http.Handler) http.Handler
 }
 
 type Carrier struct {
@@ -103,6 +105,9 @@ func newCarrier(name string, desc *grpc.ServiceDesc, svc interface{}, o carrierO
 			mux := http.NewServeMux()
 			httpgrpc.HandleServices(mux.HandleFunc, base, newHandlerMap(desc, svc), o.UnaryInt, o.StreamInt, o.HOpts...)
 			h = mux
+		}
+		if o.WrapHandler != nil {
+			h = o.WrapHandler(h)
 		}
 		c.HTTPHandler = h
 		lis := newMemListener()
